@@ -9,7 +9,11 @@ def _variants(year, base, assign, r, kinds):
     out = []
     fl = available_forms[year]
     for kind in kinds:
-        if kind == 'file':
+        if kind.startswith('file:'):
+            sk = kind[5:]
+            sch = world.Schedule('hash', salt=int(sk[4:])) if sk.startswith('hash') else world.Schedule(sk)
+            rr = world.run_solve(fl, base.requested, r.final_inputs, answer=None, schedule=sch, keep_solver=True)
+        elif kind == 'file':
             rr = world.run_solve(fl, base.requested, r.final_inputs, answer=None, schedule=None, keep_solver=True)
         elif kind == 'file-reversed':
             rr = world.run_solve(fl, base.requested, r.final_inputs, answer=None, schedule=None, layout='reversed', keep_solver=True)
@@ -80,7 +84,10 @@ def monitor(pid, year, base, assign, r, asked):
     elif pid == 'C03':
         errs, _ = monitors.c03(fl, r)
         add(errs)
-        for kind, rr in _variants(year, base, assign, r, ALL_SCHEDS if not assign else _pick(QUICK_SCHEDS, assign, 1)):
+        # other attempt orders, and the same inputs supplied by file (the attempt sequence of a file-driven solve is
+        # very different from a prompt-driven one: lines are retried against partially computed forms)
+        for kind, rr in _variants(year, base, assign, r, (ALL_SCHEDS + ['file', 'file-reversed'] + ['file:' + k for k in ALL_SCHEDS]) if not assign
+                                  else _pick(QUICK_SCHEDS, assign, 1) + _pick(['file', 'file:reversed', 'file:hash1', 'file:linerev'], assign, 1)):
             cnt['solves'] += 1
             errs, _ = monitors.c03(fl, rr)
             add(errs, dict(schedule=kind))
@@ -97,8 +104,8 @@ def monitor(pid, year, base, assign, r, asked):
         add(monitors.stored_equals_supplied(r))
         c0 = r.canon()
         order0 = tuple(a.line for a in r.log)
-        for kind, rr in _variants(year, base, assign, r, (ALL_SCHEDS + ['file', 'file-reversed']) if not assign
-                                  else _pick(QUICK_SCHEDS, assign, 2) + _pick(['file', 'file-reversed'], assign, 1)):
+        for kind, rr in _variants(year, base, assign, r, (ALL_SCHEDS + ['file', 'file-reversed'] + ['file:' + k for k in ALL_SCHEDS]) if not assign
+                                  else _pick(QUICK_SCHEDS, assign, 2) + _pick(['file', 'file-reversed', 'file:reversed', 'file:hash1'], assign, 1)):
             cnt['solves'] += 1
             if tuple(a.line for a in rr.log) != order0:
                 cnt['reordered_runs'] = cnt.get('reordered_runs', 0) + 1
@@ -221,6 +228,42 @@ def _cli_prompted(year, base, r):
             x, y = got.get(sec, {}), want.get(sec, {})
             diff += [f'{sec}.{k}: {x.get(k)!r} vs {y.get(k)!r}' for k in sorted(set(x) | set(y)) if x.get(k) != y.get(k)]
         errs.append(('cli-prompted-solution', f'interactive solve differs from the in-memory solve with the same answers: {diff[:4]}'))
+    return errs
+
+
+def boost_items(year, base):
+    """one-line priority deviations of the attempt order: every computed line of every form other than the input-only
+    forms is, in turn, ranked before everything else and after everything else, in a file-driven solve of the same
+    inputs; each result must be a fixed point and equal to the base outcome"""
+    from habutax.form import InputForm
+    fl = available_forms[year]
+    r, asked = e3.run_return(year, base, {})
+    if r.exc is not None:
+        return []
+    skip = set(C.form_name for C in fl if issubclass(C, InputForm))
+    lines = [f'{sec}.{k}' for sec, kv in r.solution.items() if sec.split(':')[0] not in skip for k in kv]
+    return [(year, base.name, line, kind) for line in lines for kind in ('perm', 'last')]
+
+
+_BOOST_CACHE = {}
+
+
+def boost_work(arg):
+    year, bname, line, kind = arg
+    fl = available_forms[year]
+    if (year, bname) not in _BOOST_CACHE:
+        base = e3.base_by_name(bname, year)
+        r, asked = e3.run_return(year, base, {})
+        _BOOST_CACHE[(year, bname)] = (base, r)
+    base, r = _BOOST_CACHE[(year, bname)]
+    sch = world.Schedule(kind, order=[line])
+    rr = world.run_solve(fl, base.requested, r.final_inputs, answer=None, schedule=sch)
+    errs = []
+    e3_, _ = monitors.c03(fl, rr)
+    for k_, m_ in e3_:
+        errs.append((k_, f'{line} ranked {"first" if kind == "perm" else "last"}: {m_}'))
+    if rr.canon() != r.canon():
+        errs.append(('outcome-differs', f'{line} ranked {"first" if kind == "perm" else "last"}: {_diff(r, rr)}'))
     return errs
 
 
